@@ -5,7 +5,7 @@ prop = sys.argv[1]
 units = driver.load_contracts(prop)
 u = [x for x in units if x['name'] == sys.argv[2]][0]
 case = eval(sys.argv[3])
-V = api.Verifier(u, case, sys.argv[4] if len(sys.argv) > 4 else 'unbounded', eval(sys.argv[5]) if len(sys.argv) > 5 else {}, 5000)
+V = api.Verifier(u, case, sys.argv[4] if len(sys.argv) > 4 else "unbounded", eval(sys.argv[5]) if len(sys.argv) > 5 else {}, int(sys.argv[6]) if len(sys.argv) > 6 else 5000)
 t = time.time()
 u['fn'](V, **case)
 print('time', round(time.time() - t, 1), 'paths', V.paths_seen, len(V.records))
